@@ -2,12 +2,12 @@ package props
 
 import (
 	"bytes"
-	"os/exec"
 	"crypto/sha256"
 	"encoding/json"
 	"fmt"
 	"math/rand"
 	"os"
+	"os/exec"
 	"path/filepath"
 	"sort"
 	"strings"
@@ -542,7 +542,6 @@ func c19Case(c *core.C) {
 		}
 	}
 }
-
 
 // c19InProcess: the whole history runs in ONE child process on one FileSystem instance (plus, sometimes, a second
 // instance on the same directory), so that state kept inside the backend between calls is part of what is observed.
